@@ -41,7 +41,7 @@ let step _ cs os =
             c_writes = nlist (get f "w"); c_fail = optn (get f "f"); c_zstd = (get f "z" = "1");
             c_kind = n_of_hex (get f "kind"); c_puller = n_of_hex (get f "pull");
             c_cancel_after = n_of_hex (get f "cj");
-            c_panic = (match get_opt f "fk" with Some "panic" -> true | Some "err" | None -> false
+            c_panic = (match get_opt f "fk" with Some "panic" -> true | Some "err" | Some "eof" | None -> false
                                                 | Some x -> failwith ("bad failure kind " ^ x)) } in
   let out = ref [] in
   (match get_opt o "crash" with
